@@ -36,6 +36,56 @@ func init() {
 					}
 				}
 			}
+			// history independence: the same calls before and after unrelated calls, and fresh values
+			for _, eco := range ecosystems {
+				all := versionTemplates(eco, "m")
+				vs := pick(eco, all, 1)
+				if len(vs) > 3 {
+					vs = vs[:3]
+				}
+				bounds := thin(rangeSafe(eco, all), 2)
+				var rs []string
+				if len(bounds) > 0 {
+					rs = append(rs, thin(comparatorRanges(eco, bounds), 2)...)
+				}
+				rs = append(rs, thin(shorthandRanges(eco), 2)...)
+				if len(rs) == 0 {
+					continue
+				}
+				third := freeRunOf(eco)
+				if third == "" {
+					third = vs[0]
+				}
+				for _, a := range vs {
+					for _, r := range rs {
+						out = append(out, &Config{ID: fmt.Sprintf("C19/hist/%s/%s|%s", eco, a, r), Pkg: zzhPkg, Func: "C19Hist",
+							Args: []ArgSpec{ArgStr(eco), ArgTmpl(a), ArgTmpl(vs[len(vs)-1]), ArgTmpl(r), ArgTmpl(third), ArgTmpl(rs[len(rs)-1])}})
+					}
+				}
+			}
+			// vers.Contains before and after a call with the same constraint text under another scheme
+			// (and under the same scheme with another probe)
+			histPairs := [][2]string{{"deb", "npm"}, {"npm", "deb"}, {"maven", "gem"}, {"pypi", "generic"}, {"rpm", "alpine"}, {"golang", "cargo"}, {"nuget", "npm"}, {"gem", "deb"}}
+			if tier == "thorough" {
+				histPairs = nil
+				for _, s1 := range versSchemes {
+					for _, s2 := range versSchemes {
+						if s1 != s2 {
+							histPairs = append(histPairs, [2]string{s1, s2})
+						}
+					}
+				}
+			}
+			for _, sp := range histPairs {
+				// a shape whose grouping depends on the sorted order: two lower bounds and an upper bound,
+				// one of the lower bounds with a suffix that the schemes order differently
+				for _, c := range []string{">={d}.{d}.{d}|>={d}.{d}.{d}-{l}{l}{d}|<{d}.{d}.{d}", ">={d}.{d}.{d}|<{d}.{d}.{d}"} {
+					for _, fnName := range []string{"C19VersHist", "C19VersHist2"} {
+						out = append(out, &Config{ID: fmt.Sprintf("C19/vershist/%s/%s|%s/%s", fnName, sp[0], sp[1], c), Pkg: zzhPkg, Func: fnName,
+							Args: []ArgSpec{ArgTmpl("vers:" + sp[0] + "/" + c), ArgTmpl("{d}.{d}.{d}"), ArgTmpl("vers:" + sp[1] + "/" + c), ArgTmpl("{d}.{d}.{d}-{l}{l}{d}")}})
+					}
+				}
+			}
 			for _, scheme := range versSchemes {
 				ts := versVersionTemplates(scheme, "thorough")
 				for _, shape := range []string{">=%s|<%s", "<%s|>=%s|!=%s", "=%s", "*", ">%s|<=%s|>%s|<=%s"} {
@@ -49,7 +99,7 @@ func init() {
 			return out
 		},
 		Bounds: func(tier string) string {
-			return "per ecosystem 4x4 (quick) / 8x8 (thorough) version templates x 6 / 16 range templates (comparator and shorthand forms), all operations NewVersion, NewVersionRange, Compare, Contains, String after the epoch; vers.Contains on 5 range shapes per scheme; schedules are not enumerated (reduction to write-freedom); correctly synchronised shared mutable state would be reported, conservatively, as a shared write"
+			return "per ecosystem 4x4 (quick) / 8x8 (thorough) version templates x 6 / 16 range templates (comparator and shorthand forms), all operations NewVersion, NewVersionRange, Compare, Contains, String after the epoch; vers.Contains on 5 range shapes per scheme; history independence: the same ecosystem calls before and after unrelated calls and on freshly parsed values, vers.Contains before and after a call with the same constraint text under another scheme (8 scheme pairs quick, all 110 thorough); schedules are not enumerated (reduction to write-freedom); correctly synchronised shared mutable state would be reported, conservatively, as a shared write"
 		},
 		Assume: []string{"regexp.Regexp, and the standard library functions modelled by intrinsics, are safe for concurrent use as documented",
 			"reduction: if no call writes memory reachable by another call and every call is deterministic, all interleavings are equivalent to a sequential run"},
